@@ -27,6 +27,18 @@ if sys.version > '3': long = int
 __all__ = []
 options = {}
 
+# Verification hook (inactive unless the environment variable CVXOPT_VERIF=1
+# is set at import time): reports per-iteration stopping statistics to the
+# callable cvxopt._verif_sink, if one is installed.
+import os as _os
+if _os.environ.get('CVXOPT_VERIF') == '1':
+    def _verif_emit(ev, **fields):
+        import cvxopt
+        sink = getattr(cvxopt, '_verif_sink', None)
+        if sink is not None: sink(ev, fields)
+else:
+    _verif_emit = None
+
 
 def conelp(c, G, h, dims = None, A = None, b = None, primalstart = None,
     dualstart = None, kktsolver = None, xnewcopy = None, xdot = None,
@@ -913,6 +925,13 @@ def conelp(c, G, h, dims = None, A = None, b = None, primalstart = None,
            dinfres = max(hresy / resy0, hresz/resz0) / (-cx)
         else:
            dinfres = None
+
+        if _verif_emit:
+            _verif_emit('conelp.iter', iters = iters, pres = pres,
+                dres = dres, gap = gap, relgap = relgap, pinfres = pinfres,
+                dinfres = dinfres, pcost = pcost, dcost = dcost,
+                maxiters = MAXITERS, abstol = ABSTOL, reltol = RELTOL,
+                feastol = FEASTOL, refinement = refinement)
 
         if show_progress:
             if iters == 0:
@@ -2202,6 +2221,13 @@ def coneqp(P, q, G = None, h = None, dims = None, A = None, b = None,
             relgap = None
         pres = max(resy/resy0, resz/resz0)
         dres = resx/resx0
+
+        if _verif_emit:
+            _verif_emit('coneqp.iter', iters = iters, pres = pres,
+                dres = dres, gap = gap, relgap = relgap, pcost = pcost,
+                dcost = dcost, maxiters = MAXITERS, abstol = ABSTOL,
+                reltol = RELTOL, feastol = FEASTOL,
+                refinement = refinement)
 
         if show_progress:
             print("%2d: % 8.4e % 8.4e % 4.0e% 7.0e% 7.0e" \
